@@ -38,7 +38,7 @@ NOPATH = ('NO_PATH', 'NO_PATH_WITH_CONSTRAINT', 'NO_FEASIBLE_BAUDRATE_WITH_SPACI
 
 
 def plan(tier, seed):
-    n = 64 if tier == 'quick' else 8000
+    n = 480 if tier == 'quick' else 8000
     return [{'idx': i} for i in range(n)]
 
 
